@@ -518,13 +518,13 @@ func build(dirs []string, ndirs int, raws []raw, l2, l3 bool) Case {
 			choices = append(choices, choice{models.FsMkdir, 1})
 		}
 		if len(wfds) > 0 {
-			choices = append(choices, choice{models.FsAppend, 6})
+			choices = append(choices, choice{models.FsAppend, 8})
 		}
 		if len(all) > 0 {
 			choices = append(choices, choice{models.FsClose, 3})
 		}
 		if len(rfds) > 0 {
-			choices = append(choices, choice{models.FsReadAt, 7})
+			choices = append(choices, choice{models.FsReadAt, 10})
 		}
 		if len(ents) > 0 {
 			choices = append(choices, choice{models.FsOpen, 6}, choice{models.FsDelete, 2}, choice{models.FsLink, 3})
@@ -599,7 +599,8 @@ func build(dirs []string, ndirs int, raws []raw, l2, l3 bool) Case {
 func genCase(t *rapid.T) Case {
 	ndirs := rapid.IntRange(1, 3).Draw(t, "ndirs")
 	dirs := rapid.Permutation(dirPool).Draw(t, "dirs")
-	raws := rapid.SliceOfN(rawGen, 3, 80).Draw(t, "steps")
+	minLen := rapid.SampledFrom([]int{1, 5, 15, 30, 50}).Draw(t, "minlen")
+	raws := rapid.SliceOfN(rawGen, minLen, 80).Draw(t, "steps")
 	return build(dirs, ndirs, raws, ev.SwitchOn(swL2), ev.SwitchOn(swL3))
 }
 
